@@ -239,10 +239,10 @@ def make_broker(lab: Lab, backend_fail: Callable[[str], bool] = lambda tid: Fals
 
 
 def encode(broker: Any, task_name: str, task_id: str, args: List[Any], labels: Optional[Dict[str, Any]] = None,
-           kwargs: Optional[Dict[str, Any]] = None) -> bytes:
+           kwargs: Optional[Dict[str, Any]] = None, labels_types: Optional[Dict[str, int]] = None) -> bytes:
     from taskiq.message import TaskiqMessage
 
-    m = TaskiqMessage(task_id=task_id, task_name=task_name, labels=labels or {}, labels_types=None, args=args, kwargs=kwargs or {})
+    m = TaskiqMessage(task_id=task_id, task_name=task_name, labels=labels or {}, labels_types=labels_types, args=args, kwargs=kwargs or {})
     return broker.formatter.dumps(m).message
 
 
@@ -302,6 +302,18 @@ def make_middleware(lab: Lab, idx: int, overridden: Dict[str, str], replace_mess
 
         if kind == "sync":
             return body
+
+        if kind == "future":
+            # a plain function that returns an already scheduled Task: a legal awaitable result of a hook
+            def fbody(self: Any, message: Any, *rest: Any) -> Any:
+                async def later() -> Any:
+                    lab.rec("hook_begin", idx, hook, message.task_id)
+                    await lab.gate(f"hookf:{idx}:{hook}:{message.task_id}")
+                    return body(self, message, *rest)
+
+                return asyncio.ensure_future(later())
+
+            return fbody
 
         async def abody(self: Any, message: Any, *rest: Any) -> Any:
             lab.rec("hook_begin", idx, hook, message.task_id)
